@@ -1,7 +1,7 @@
 SPECIFICATION Spec
 CONSTANTS
-  Sharing = "none"
-  Depth = 4
+  Sharing = "shared"
+  Depth = 3
   PoolMethods <- AllPoolMethods
 INVARIANT TypeOK
 INVARIANT Stamped
